@@ -115,6 +115,10 @@ class Gen:
         n = 1
         if p.multi_root and ch.chance(1, 6):
             n = ch.int(2, 3)
+        if n > 1 and p.kv_roots and not p.roots:
+            # several roots, a key-value block possibly among them (before, between or after ordinary blocks)
+            return [({"t": ch.choice(["metadata", "validation", "connectionoptions"]), "kvroot": self.kv_pairs(), "items": []}
+                     if ch.chance(1, 5) else self.obj(ch.choice(types), 0)) for _ in range(n)]
         return [self.obj(ch.choice(types), 0) for _ in range(n)]
 
     def forced_document(self, combo):
